@@ -229,6 +229,17 @@ def run(ctx):
                           "after larger ones (fresh processes)" % (it[0], it[1], it[2], a, b_), {"helper": it[0], "order": it[2]})
         elif not (isinstance(a, int) and 1 <= a < it[2]):
             ctx.violation("%s(%r, %d) -> %r" % (it[0], it[1], it[2], a), {"helper": it[0], "order": it[2]})
+    # beyond the listed property (note only): util.PRNG as a byte stream
+    for seed in (b"", b"seed", "text-seed", bytes(range(40))):
+        for sizes in ([1, 1, 1], [32], [33], [31, 2], [64, 1], [65], [100, 3, 200], [0, 5], [255, 256, 257], [521 // 8 + 9] * 3):
+            try:
+                g = util.PRNG(seed)
+                outs = [b2l(g(sz)) for sz in sizes]
+                whole, ok = b2l(util.PRNG(seed)(sum(sizes))), True
+            except BaseException:  # noqa
+                outs, whole, ok = [], [], False
+            events.append({"op": "prng", "sizes": sizes, "outs": outs, "whole": whole, "ok": ok})
+            meta.append("PRNG(%r) read in pieces of %s" % (seed if isinstance(seed, str) else seed[:8], sizes))
     kmap = dict(keys)
     if __import__("os").environ.get("VERIF_DUMP"):
         import json as _j
@@ -239,6 +250,10 @@ def run(ctx):
     ctx.traces += len(events)
     for ix, clause in bad:
         e = events[ix]
+        names = clause[0][1] if clause else []
+        if names and all(str(c_).startswith("HELPER-") for c_ in names):
+            ctx.note("beyond-property helper deviates from RandTrace.tla: %s %s" % (names, meta[ix]))
+            continue
         ctx.violation("%s: %s -> %s" % (clause[0][1] if clause else clause, meta[ix],
                                        core.compact({k: v for k, v in e.items() if k not in ("counts", "n")})),
                       {"what": meta[ix], "event": core.compact(e)}, keys=kmap.get(ix, []))
